@@ -20,6 +20,10 @@
 #include <cmath>
 #include <iostream>
 
+#ifdef ROMEA_CORE_COMMON_VERIF
+#include "romea_core_common/verif/VerifHooks.hpp"
+#endif
+
 namespace
 {
 const double EPSILON = 1e-12;
@@ -103,7 +107,15 @@ double LambertConverter::computeLatitude(
   const double & e)
 {
   double latitude = 2 * std::atan(std::exp(isometricLatitude)) - M_PI_2;
+#ifdef ROMEA_CORE_COMMON_VERIF
+  unsigned long verif_iterations = 0;
+#endif
   for (;; ) {
+#ifdef ROMEA_CORE_COMMON_VERIF
+    if (romea_verif_loop_iter("LambertConverter::computeLatitude", ++verif_iterations)) {
+      break;
+    }
+#endif
     double previous_latitude = latitude;
     double alpha = std::pow((1 + e * std::sin(latitude)) / (1 - e * std::sin(latitude)), e / 2.);
 
